@@ -245,3 +245,21 @@ Proof.
     unfold G. rewrite pred_spec_cases. cbv zeta. fold xi yi xd yd.
     replace (px + i + xd) with (px + xd + i) by ring. replace (py + j + yd) with (py + yd + j) by ring. reflexivity.
 Qed.
+
+(* a zero vector copies the co-located reference sample: not-coded macroblocks and the macroblocks filled in after an
+   early end of data (vector zero, no residual) are exact copies of the reference *)
+Lemma pred_spec_zero src w h x y : 0 <= x < w -> 0 <= y < h -> pred_spec src w h (2 * x + 0) (2 * y + 0) = at_ src x y.
+Proof.
+  intros Hx Hy. rewrite pred_spec_cases. cbv zeta. change (0 mod 2 =? 0) with true. cbn [negb andb lerp]. unfold ref_at, clamp.
+  change (0 / 2) with 0. replace (Z.min (w - 1) (Z.max 0 (x + 0))) with x by lia. replace (Z.min (h - 1) (Z.max 0 (y + 0))) with y by lia. reflexivity.
+Qed.
+
+Corollary gather_block_zero_vector w h src px py t :
+  plane_ok w h src -> plane_ok w h t -> 1 <= w -> 1 <= h -> 0 <= px -> 0 <= py ->
+  exists t', gather_block src w px py (0, 0) t = Ok t' /\ plane_ok w h t' /\
+    forall x y, 0 <= x < w -> 0 <= y < h -> at_ t' x y = if in_block px py 8 8 x y then at_ src x y else at_ t x y.
+Proof.
+  intros Hs Ht Hw Hh Hpx Hpy. destruct (gather_block_spec w h src px py (0, 0) t Hs Ht Hw Hh Hpx Hpy) as (t' & E & O & A).
+  exists t'. split; [exact E|]. split; [exact O|]. intros x y Hx Hy. rewrite A by assumption. cbn [fst snd].
+  destruct (in_block px py 8 8 x y); [apply pred_spec_zero; assumption|reflexivity].
+Qed.
